@@ -214,30 +214,44 @@ def build(spec, Model):
 
 def cnf_projected_models(clauses, proj, limit_nodes=400_000):
     """All assignments to the variables in `proj` (list of positive ints) that extend to a model of the CNF.
-    Independent DPLL: unit propagation, branch on projection variables first, then plain satisfiability of
-    the rest.  Returns (set of frozenset(true projection vars), complete_flag)."""
+    Independent DPLL: unit propagation over occurrence lists, branch on projection variables first, then plain
+    satisfiability of the rest.  Returns (set of frozenset(true projection vars), complete_flag)."""
     clauses = [tuple(dict.fromkeys(c)) for c in clauses]
     if any(len(c) == 0 for c in clauses):
         return set(), True
+    occ = {}  # literal -> indices of clauses containing it
+    for idx, c in enumerate(clauses):
+        for lit in c:
+            occ.setdefault(lit, []).append(idx)
+    allvars = sorted({abs(l) for c in clauses for l in c} | set(proj))
     nodes = [0]
 
     class Limit(Exception):
         pass
 
-    def propagate(assign):
-        changed = True
-        while changed:
-            changed = False
-            for c in clauses:
+    def assign_and_propagate(assign, lits):
+        """assign: dict var->bool (mutated). lits: literals to make true. Returns False on conflict."""
+        queue = list(lits)
+        while queue:
+            lit = queue.pop()
+            v = abs(lit)
+            val = lit > 0
+            cur = assign.get(v)
+            if cur is not None:
+                if cur != val:
+                    return False
+                continue
+            assign[v] = val
+            for idx in occ.get(-lit, ()):  # clauses in which a literal just became false
                 sat = False
                 free = None
                 nfree = 0
-                for lit in c:
-                    v = assign.get(abs(lit))
-                    if v is None:
+                for l2 in clauses[idx]:
+                    a = assign.get(abs(l2))
+                    if a is None:
                         nfree += 1
-                        free = lit
-                    elif v == (lit > 0):
+                        free = l2
+                    elif a == (l2 > 0):
                         sat = True
                         break
                 if sat:
@@ -245,32 +259,23 @@ def cnf_projected_models(clauses, proj, limit_nodes=400_000):
                 if nfree == 0:
                     return False
                 if nfree == 1:
-                    assign[abs(free)] = free > 0
-                    changed = True
+                    queue.append(free)
         return True
+
+    base = {}
+    units = [c[0] for c in clauses if len(c) == 1]
+    if not assign_and_propagate(base, units):
+        return set(), True
 
     def satisfiable(assign):
         nodes[0] += 1
         if nodes[0] > limit_nodes:
             raise Limit
-        if not propagate(assign):
-            return False
-        for c in clauses:
-            sat = False
-            free = None
-            for lit in c:
-                v = assign.get(abs(lit))
-                if v is None:
-                    if free is None:
-                        free = lit
-                elif v == (lit > 0):
-                    sat = True
-                    break
-            if not sat and free is not None:
-                for val in (free > 0, not (free > 0)):
+        for v in allvars:
+            if v not in assign:
+                for val in (True, False):
                     a2 = dict(assign)
-                    a2[abs(free)] = val
-                    if satisfiable(a2):
+                    if assign_and_propagate(a2, [v if val else -v]) and satisfiable(a2):
                         return True
                 return False
         return True
@@ -281,21 +286,19 @@ def cnf_projected_models(clauses, proj, limit_nodes=400_000):
         nodes[0] += 1
         if nodes[0] > limit_nodes:
             raise Limit
-        if not propagate(assign):
-            return
         while k < len(proj) and proj[k] in assign:
             k += 1
         if k == len(proj):
-            if satisfiable(dict(assign)):
+            if satisfiable(assign):
                 out.add(frozenset(v for v in proj if assign[v]))
             return
         for val in (True, False):
             a2 = dict(assign)
-            a2[proj[k]] = val
-            rec(a2, k + 1)
+            if assign_and_propagate(a2, [proj[k] if val else -proj[k]]):
+                rec(a2, k + 1)
 
     try:
-        rec({}, 0)
+        rec(base, 0)
     except Limit:
         return out, False
     return out, True
